@@ -4,8 +4,8 @@ set -e
 cd "$(dirname "$0")"
 export CARGO_NET_OFFLINE=true
 python3-vt - <<'PY'
-import sys
-sys.path.insert(0, '/verif')
+import os, sys
+sys.path.insert(0, os.getcwd())
 from mirsym import engine, check
 engine.dump_mir(print)
 print(check.build_native("release"))
